@@ -20,4 +20,4 @@ Definition in_domain_B (B ec er : Z) (children : list (child_kind * child)) : Pr
    the estimate has at most 6B tracks per axis, every placed item grows an axis by at most 2B, the search cursors and the
    probed areas stay within 10B of the last line:  2 B n + 16 B <= i16::MAX  (n = number of children) *)
 Definition bound_ok (B : Z) (n : nat) : Prop :=
-  1 <= B /\ 2 * B * Z.of_nat n + 16 * B <= 32767.
+  2 <= B /\ 2 * B * Z.of_nat n + 16 * B <= 32767.
